@@ -23,7 +23,12 @@ BASE_CONST = {
     "InitKnown": True,
     "MaskF2": True,
     "MaskF4": True,
+    "ObsInit": vp.Sub("NoObsInit"),
+    "ObsUpdate": vp.Sub("NoObsUpdate"),
 }
+
+OBS_FOLD = {"ObsInit": vp.Sub("InitFoldOf"), "ObsUpdate": vp.Sub("FoldAll")}
+OBS_ROUTING = {"ObsInit": vp.Sub("InitRTOf"), "ObsUpdate": vp.Sub("SyncAll")}
 
 TRACE_INVARIANTS = ["KeysUnique", "ArmedConsistent", "NoFabrication", "PrefixConsistent",
                     "LocalNeverFlagged", "LeftOnlyByOwner", "NoStepViolation"]
@@ -36,10 +41,8 @@ def consts(**kw):
 
 
 def _specs(workdir, module):
-    for m in GOSSIP_MODULES:
-        p = os.path.join(vp.SPEC, m + ".tla")
-        if os.path.exists(p):
-            vp.copy_specs(workdir, [m])
+    for p in glob.glob(os.path.join(vp.SPEC, "*.tla")):
+        vp.copy_specs(workdir, [os.path.basename(p)[:-4]])
 
 
 def model_check(chk, label, constants, invariants, properties=(), view="View", module="Gossip",
@@ -183,6 +186,8 @@ def trace_cfg(nodes, invariants, module_spec="TraceSpec", extra_consts=None):
         "InitKnown": False,
         "MaskF2": False,
         "MaskF4": False,
+        "ObsInit": vp.Sub("NoObsInit"),
+        "ObsUpdate": vp.Sub("NoObsUpdate"),
     }
     if extra_consts:
         c.update(extra_consts)
